@@ -110,6 +110,7 @@ type Options struct {
 	MaxSteps     int   // safety horizon (0 = 2_000_000)
 	KeyFunc      func(any) (string, bool)
 	Trace        bool // record a textual step trace
+	DaemonStacks bool // also capture the stacks of blocked daemon tasks at the end
 }
 
 // Blocked describes a task that had not finished when the execution ended.
@@ -128,6 +129,7 @@ type PanicInfo struct {
 	Task  string
 	Value string
 	Stack string
+	Where string
 }
 
 // Race is a pair of conflicting accesses not ordered by happens-before.
@@ -165,6 +167,7 @@ type Exec struct {
 	steps      int
 	spawnClass Class
 	aborting   bool
+	quiet      bool
 	finished   bool
 	doneCh     chan struct{}
 	wg         sync.WaitGroup
@@ -246,6 +249,9 @@ func Run(opt Options, body func()) *Result {
 		}
 	}
 	e.wg.Wait()
+	for i := range e.res.Blocked {
+		e.res.Blocked[i].Where = e.tasks[e.res.Blocked[i].ID].where
+	}
 	active = nil
 	e.res.Points = e.points
 	e.res.Choices = e.choices
@@ -273,12 +279,15 @@ func (e *Exec) newTask(name string, class Class, f func()) *task {
 		defer func() {
 			r := recover()
 			if _, ab := r.(abortSentinel); ab || e.aborting {
+				if t.class != Daemon || e.opt.DaemonStacks {
+					t.where = Frames(string(debug.Stack()), 8)
+				}
 				return
 			}
 			if r != nil {
 				t.panicV = r
 				t.panicS = string(debug.Stack())
-				e.res.Panics = append(e.res.Panics, PanicInfo{Task: t.name, Value: fmt.Sprint(r), Stack: trimStack(t.panicS)})
+				e.res.Panics = append(e.res.Panics, PanicInfo{Task: t.name, Value: fmt.Sprint(r), Stack: trimStack(t.panicS), Where: Frames(t.panicS, 8)})
 			}
 			t.done = true
 			t.op = nil
@@ -287,6 +296,31 @@ func (e *Exec) newTask(name string, class Class, f func()) *task {
 		f()
 	}()
 	return t
+}
+
+// Frames extracts up to n user function names (innermost first) from a debug.Stack dump,
+// skipping runtime and vsched frames.
+func Frames(stack string, n int) string {
+	var out []string
+	for _, l := range strings.Split(stack, "\n") {
+		if l == "" || l[0] == '\t' || strings.HasPrefix(l, "goroutine ") {
+			continue
+		}
+		if i := strings.LastIndex(l, "("); i > 0 {
+			l = l[:i]
+		}
+		if strings.HasPrefix(l, "runtime") || strings.HasPrefix(l, "verif.local/vsched") || strings.HasPrefix(l, "panic") || strings.HasPrefix(l, "created by") {
+			continue
+		}
+		if i := strings.LastIndex(l, "/"); i >= 0 {
+			l = l[i+1:]
+		}
+		out = append(out, l)
+		if len(out) == n {
+			break
+		}
+	}
+	return strings.Join(out, " < ")
 }
 
 func trimStack(s string) string {
@@ -361,7 +395,7 @@ func (e *Exec) next(self *task) {
 		return
 	}
 	idx := 0
-	if len(en) > 1 && e.opt.BranchSched {
+	if len(en) > 1 && e.opt.BranchSched && !e.quiet {
 		pre := self != nil && en[0] == self
 		idx = e.choose(Point{Kind: PSched, N: len(en), Preempt: pre, Label: schedLabel(en)})
 	}
@@ -575,6 +609,19 @@ func OthersBlocked() []Blocked {
 	return out
 }
 
+// Quiet switches choice-point recording off (true) or on (false): while quiet the
+// schedule is the deterministic non-pre-emptive default and data choices take alternative 0.
+// Harnesses use it for scenario set-up phases.
+func Quiet(q bool) bool {
+	e := cur()
+	if e == nil {
+		return false
+	}
+	old := e.quiet
+	e.quiet = q
+	return old
+}
+
 // EnvChoice is a free, harness-declared choice among n alternatives.
 func EnvChoice(label string, n int) int {
 	e := cur()
@@ -587,7 +634,7 @@ func EnvChoice(label string, n int) int {
 // DataChoice is a data deviation choice (cost 1 for alternatives > 0).
 func DataChoice(label string, n int) int {
 	e := cur()
-	if e == nil || n <= 1 || !e.opt.BranchData {
+	if e == nil || n <= 1 || !e.opt.BranchData || e.quiet {
 		return 0
 	}
 	return e.choose(Point{Kind: PData, N: n, Label: label})
@@ -683,4 +730,10 @@ func sortStrings(keys []string) []int {
 	}
 	sort.SliceStable(idx, func(a, b int) bool { return keys[idx[a]] < keys[idx[b]] })
 	return idx
+}
+
+// Lib is a scheduling point in front of a library call on x (badger, bigcache); it returns x.
+func Lib[T any](x T, name string) T {
+	LibCall(name, any(x))
+	return x
 }
